@@ -6,10 +6,10 @@ From Gen Require Import Ident Classes.
 Open Scope Z_scope.
 
 (* ------------------------------------------------------------------ admissible settings *)
-(* what the order on linear forms uses: non-negative globals and 2W + M >= R (W >= 0 holds by definition of max) *)
+(* what the order on linear forms uses: non-negative globals, 2W + M >= R and 2W <= R (W >= 0 holds by definition of max) *)
 Definition env_ok (env : denv) : Prop :=
   0 <= genv env GReadout /\ 0 <= genv env GMicrowave /\ 0 <= genv env GFlux /\ 0 <= genv env GReset
-  /\ genv env GReadout <= 2 * wait_of env + genv env GMicrowave.
+  /\ genv env GReadout <= 2 * wait_of env + genv env GMicrowave /\ 2 * wait_of env <= genv env GReadout.
 
 (* the hypotheses in terms of the setting only: durations are multiples of 0.25 = 2 ticks, so R - M is even and the wait
    0.5 * (R - M) is exact *)
@@ -24,12 +24,13 @@ Lemma env_ok_of env : env_nonneg env -> env_parity env -> env_ok env.
 Proof.
   intros (A & B & C & D) P. unfold env_ok, env_parity, wait_of, resolve in *.
   repeat split; try assumption.
-  pose proof (Z.div_mod (genv env GReadout - genv env GMicrowave) 2 ltac:(lia)) as E. rewrite P in E. lia.
+  - pose proof (Z.div_mod (genv env GReadout - genv env GMicrowave) 2 ltac:(lia)) as E. rewrite P in E. lia.
+  - pose proof (Z.div_mod (genv env GReadout - genv env GMicrowave) 2 ltac:(lia)) as E. rewrite P in E. lia.
 Qed.
 
 (* without the parity hypothesis the fact 2W + M >= R is false in the model (floor division) *)
 Example parity_needed : ~ env_ok (mk_env 3 0 0 0 []).
-Proof. unfold env_ok, wait_of; simpl. intros (_ & _ & _ & _ & H). vm_compute in H. apply H; reflexivity. Qed.
+Proof. unfold env_ok, wait_of; simpl. intros (_ & _ & _ & _ & H & _). vm_compute in H. apply H; reflexivity. Qed.
 
 (* ------------------------------------------------------------------ linear forms *)
 Lemma leval_add env a b : leval env (ladd a b) = leval env a + leval env b.
@@ -51,24 +52,24 @@ Qed.
 
 Lemma lin_nonneg_sound env l : env_ok env -> lin_nonneg l = true -> 0 <= leval env l.
 Proof.
-  intros (HR & HM & HF & HS & HW) H. pose proof (wait_nonneg env) as HW0.
+  intros (HR & HM & HF & HS & HW & HW2) H. pose proof (wait_nonneg env) as HW0.
   unfold lin_nonneg in H. destruct l as [a b c d e f]; cbn [cR cM cF cS cW c0] in H.
-  set (k := Z.max 0 (- a)) in *.
+  set (k1 := Z.max 0 (- a)) in *. set (k2 := Z.max 0 a) in *.
   repeat rewrite andb_true_iff in H. destruct H as ((((H1 & H2) & H3) & H4) & H5).
   apply Z.leb_le in H1, H2, H3, H4, H5.
   unfold leval; cbn [cR cM cF cS cW c0].
   set (R := genv env GReadout) in *. set (M := genv env GMicrowave) in *.
   set (F := genv env GFlux) in *. set (S := genv env GReset) in *. set (W := wait_of env) in *.
-  assert (K : 0 <= k) by (unfold k; lia).
-  assert (A : 0 <= a + k) by (unfold k; lia).
-  clearbody k R M F S W.
-  pose proof (Z.mul_nonneg_nonneg _ _ A HR) as P1.
+  assert (K1 : 0 <= k1) by (unfold k1; lia). assert (K2 : 0 <= k2) by (unfold k2; lia).
+  assert (A : a + k1 - k2 = 0) by (unfold k1, k2; lia).
+  clearbody k1 k2 R M F S W.
   pose proof (Z.mul_nonneg_nonneg _ _ H1 HM) as P2.
   pose proof (Z.mul_nonneg_nonneg _ _ H2 HF) as P3.
   pose proof (Z.mul_nonneg_nonneg _ _ H3 HS) as P4.
   pose proof (Z.mul_nonneg_nonneg _ _ H4 HW0) as P5.
-  assert (G : 0 <= 2 * W + M - R) by lia.
-  pose proof (Z.mul_nonneg_nonneg _ _ K G) as P6.
+  assert (G1 : 0 <= 2 * W + M - R) by lia. assert (G2 : 0 <= R - 2 * W) by lia.
+  pose proof (Z.mul_nonneg_nonneg _ _ K1 G1) as P6. pose proof (Z.mul_nonneg_nonneg _ _ K2 G2) as P7.
+  assert (P1 : (a + k1 - k2) * R = 0) by (rewrite A; ring).
   lia.
 Qed.
 
